@@ -18,7 +18,8 @@ RULE = ("a case is one subprocess with an affinity mask in {1,2,5,16 CPUs} (in o
         "{loky, threading, multiprocessing, default}: cpu_count() and effective_n_jobs(n) for every n in [-2*cpus, 2*cpus] are "
         "compared with an independent re-derivation, Parallel(n_jobs=0) must raise ValueError, several n_jobs values are run "
         "for real (3*resolved+2 tasks of 20-60 ms) and nesting shapes of depth 3 are executed (the first-level call being a default call, or one with prefer='threads' / require='sharedmem', alone or inside a parallel_config(backend=loky|multiprocessing|threading) block); distinct_nontrivial counts "
-        "distinct (mask, env, backend, n_jobs) runs whose tasks really overlapped (high-water mark >= 2) or whose n_jobs resolves to 1")
+        "distinct (mask, env, backend, n_jobs) runs whose tasks really overlapped (high-water mark >= 2) or whose n_jobs resolves to 1"
+        " A third of the cases change the mask / LOKY_MAX_CPU_COUNT during the process and observe again; the variable is also spelled ' 3', '+1', '2\\n', '3 '; one case in five makes two overlapping calls inside one parallel_config(backend='threading') block.")
 ASSUMPTIONS = [
     "time.monotonic() is CLOCK_MONOTONIC, comparable across processes; timestamps are taken inside the tasks",
     "reference cpu_count = max(1, min(os.cpu_count(), affinity mask size, cgroup quota, LOKY_MAX_CPU_COUNT))",
